@@ -2,7 +2,7 @@
 import json, os, re, subprocess
 import vlib
 
-HS_CHUNK = 1500      # lines per TLC validation run (keeps counterexample traces short)
+HS_CHUNK = 4000      # lines per TLC validation run
 
 
 def run(ctx):
@@ -18,9 +18,14 @@ def run(ctx):
         "a failing endpoint closes its connection (as btconn does); peers of the policy matrix are scripted (plaintext-only, MSE-only, both; selection policies; truncating step 4)"]
     # ---- 1. design level
     # one run: pads x first-read sizes, negotiation x keys x payloads (also against a hostile receiver), policy matrix
-    _, pout = ctx.tlc_mc("MC_MSE", "MC_MSE.cfg", timeout=900)
-    if not ctx.quick():
-        ctx.tlc_mc("MC_MSE", "MC_MSE_full.cfg", timeout=2400)
+    cached = os.environ.get("VERIF_C12_SCEN")   # development aid (mutation smoke test): reuse a recorded TLC output, skip MC
+    if cached:
+        pout = open(cached).read()
+        vlib.log("C12: design-level model checking skipped, policy matrix taken from", cached)
+    else:
+        _, pout = ctx.tlc_mc("MC_MSE", "MC_MSE.cfg", timeout=900)
+        if not ctx.quick():
+            ctx.tlc_mc("MC_MSE", "MC_MSE_full.cfg", timeout=2400)
     # ---- 2. specification -> implementation: the policy matrix enumerated by TLC (printed by MCInit of the policy
     #         configuration) is replayed into the real btconn
     scen = []
@@ -59,7 +64,7 @@ def run(ctx):
     pol_out = ctx.path("pol.ndjson")
     ctx.run_drv(drv, ["-mode", "pol", "-scen", sp, "-seed", str(ctx.seed), "-reps", str(ctx.pick(1, 4)), "-out", pol_out], timeout=900)
     pol_lines = vlib.read_ndjson(pol_out)
-    if len(pol_lines) != len(scen) * ctx.pick(1, 4):
+    if len(pol_lines) != len(scen) * ctx.pick(1, 4) and not any("timeout" in (e["ra"], e["rb"]) for e in pol_lines):
         raise vlib.MachineryError("policy driver produced %d lines for %d scenarios" % (len(pol_lines), len(scen)))
     account(ctx, hs_lines, pol_lines)
     # machinery sanity: the pad hook steered every run
@@ -134,40 +139,35 @@ def signature(tag, e):
                e["selpol"], e["keymode"], e["loose"], e["ra"], e["ca"], e["rb"], e["cb"]))
 
 
+WHAT = {
+    "C12.sync": "synchronisation point not found / handshake hangs for pads within 0..511",
+    "C12.agree": "the two sides do not end in the same state (one completes, ciphers differ, or a valid handshake fails)",
+    "C12.cipher": "reported cipher is not an offered single method / is not the one in use on the wire",
+    "C12.stream": "bytes written after the handshake are not read unchanged by the peer",
+    "C12.wrongkey": "handshake completes without the right SKEY",
+    "C12.payload": "initial payload lost/garbled or oversize payload accepted",
+    "C12.forced.out": "forced outgoing encryption: plaintext redial or non-RC4 / clear-text connection returned by Dial",
+    "C12.forced.in": "forced incoming encryption: non-RC4 / clear-text connection returned by Accept",
+}
+
+
 def judge(ctx, lines, name):
-    remaining = list(lines)
-    for attempt in range(40):
-        if not remaining:
-            return
-        cur = ctx.path("%s.%d.ndjson" % (name, attempt))
-        vlib.write_ndjson(cur, remaining)
-        res = ctx.tlc_validate("Trace_MSE", cur, ntraces=len(remaining), timeout=1500)
-        if res["ok"]:
-            return
+    """One TLC run judges every line (Trace_MSE_all.cfg: the tags are printed as @@VIOL <line> <tag>, TLC does not stop
+    at the first one).  Trace_MSE.cfg (INVARIANT NoViolation) is the stop-at-first form used for diagnosis."""
+    cur = ctx.path("%s.ndjson" % name)
+    vlib.write_ndjson(cur, lines)
+    res = ctx.tlc_validate("Trace_MSE", cur, cfg="Trace_MSE_all.cfg", ntraces=0, timeout=1800)
+    if not res["ok"]:
         hw = res["hwm"]
-        if hw is None or res["invariant"] is None:
-            raise vlib.MachineryError("line %s of %s is not explained by Trace_MSE (driver/spec mismatch, not a verdict): %s\n%s"
-                                      % (hw, name, json.dumps(remaining[hw]) if hw is not None and hw < len(remaining) else "?",
-                                         res["out"][-2500:]))
-        # hw = number of judged lines (the last judged one carries the violation)
-        ev = remaining[hw - 1]
-        m = re.search(r'viol = "([^"]*)"', res["state"] or "")
-        tag = m.group(1) if m and m.group(1) else "C12.inv." + res["invariant"]
-        if res["invariant"] != "NoViolation" or tag == "C12.model":
-            raise vlib.MachineryError("recorded line is outside the specification without breaking a stated obligation (%s): %s\n%s"
-                                      % (tag, json.dumps(ev), (res["state"] or "")[-1500:]))
-        ctx.traces_ok = getattr(ctx, "traces_ok", 0) + hw - 1
-        ctx.cov["traces_validated_against_impl"] += hw - 1
-        what = {
-            "C12.sync": "synchronisation point not found / handshake hangs for pads within 0..511",
-            "C12.agree": "the two sides do not end in the same state (one completes, ciphers differ, or a valid handshake fails)",
-            "C12.cipher": "reported cipher is not an offered single method / is not the one in use on the wire",
-            "C12.stream": "bytes written after the handshake are not read unchanged by the peer",
-            "C12.wrongkey": "handshake completes without the right SKEY",
-            "C12.payload": "initial payload lost/garbled or oversize payload accepted",
-            "C12.forced.out": "forced outgoing encryption: plaintext redial or non-RC4 / clear-text connection returned by Dial",
-            "C12.forced.in": "forced incoming encryption: non-RC4 / clear-text connection returned by Accept",
-        }.get(tag, tag)
-        ctx.violation(tag, signature(tag, ev), "%s: %s" % (what, json.dumps(ev)[:600]), {"line": ev, "spec_state": res["state"]})
-        remaining = remaining[hw:]
-    raise vlib.MachineryError("too many violating lines in %s" % name)
+        raise vlib.MachineryError("line %s of %s is not explained by Trace_MSE (driver/spec mismatch, not a verdict): %s\n%s"
+                                  % (hw, name, json.dumps(lines[hw]) if hw is not None and hw < len(lines) else "?",
+                                     res["out"][-2500:]))
+    found = {}
+    for m in re.finditer(r'@@VIOL (\d+) (\S+?)"?\s*$', res["out"], re.M):
+        found[int(m.group(1))] = m.group(2)
+    ctx.cov["traces_validated_against_impl"] += len(lines) - len(found)
+    for ln in sorted(found):
+        tag, ev = found[ln], lines[ln - 1]
+        if tag == "C12.model":
+            raise vlib.MachineryError("recorded line is outside the specification without breaking a stated obligation: %s" % json.dumps(ev))
+        ctx.violation(tag, signature(tag, ev), "%s: %s" % (WHAT.get(tag, tag), json.dumps(ev)[:600]), {"line": ev})
